@@ -93,14 +93,25 @@ def all_vfiles():
     return out
 
 
+def bin_ids():
+    """identity of the executables the runs use (so that a build made outside this script is noticed)"""
+    out = {}
+    for p in (ROOT + '/driver/model_driver', corr.HARNESS_DEV, corr.HARNESS_WRAP):
+        try:
+            st = os.stat(p)
+            out[p] = [st.st_mtime_ns, st.st_size]
+        except OSError:
+            out[p] = None
+    return out
+
+
 def ensure_build():
     rh, mh = repo_hash(), mach_hash()
     stamp = os.path.join(CACHE, 'build.json')
     if os.path.exists(stamp):
         try:
             b = json.load(open(stamp))
-            if b.get('repo') == rh and b.get('mach') == mh and os.path.exists(ROOT + '/driver/model_driver') \
-                    and os.path.exists(corr.HARNESS_DEV) and os.path.exists(corr.HARNESS_WRAP):
+            if b.get('repo') == rh and b.get('mach') == mh and b.get('bins') == bin_ids():
                 return b
         except Exception:
             pass
@@ -142,6 +153,7 @@ def ensure_build():
         if rc != 0:
             b['errors'].append('harness build (%s) failed: %s' % (prof, out[-1500:]))
     b['build_s'] = round(time.time() - t0, 1)
+    b['bins'] = bin_ids()
     json.dump(b, open(stamp, 'w'), indent=1)
     return b
 
@@ -327,6 +339,47 @@ def ensure_corr(seed, tier, build):
     return res
 
 
+def _gen_worker_v(args):
+    seed, start, count, variants = args
+    rng = random.Random(seed)
+    res = []
+    for i in range(start, start + count):
+        v = variants[i % len(variants)]
+        lines, h = gen_lifecycle(rng, v, 's%d' % i, size='big' if i % 4 == 3 else 'small')
+        res.append(lines)
+    return res
+
+
+def focused_search(pid, variants, seed, tier):
+    """more histories of the given variants; returns oracle violations of property pid (first few)"""
+    n = 480 if tier == 'quick' else 2400
+    jobs = 8
+    per = n // jobs
+    tasks = [(seed * 7777 + 31 * k + 5, k * per, per, variants) for k in range(jobs)]
+    with multiprocessing.Pool(jobs) as pool:
+        parts = pool.map(_gen_worker_v, tasks)
+    hists = [l for part in parts for l in part]
+    work = os.path.join(CACHE, 'work')
+    hp = os.path.join(work, 'search.hist')
+    write_hist_file(hp, hists)
+    iobs = os.path.join(work, 'search.iobs')
+    corr.run_impl(hp, iobs, 'dev', 16)
+    impl, order = corr.split_histories(iobs)
+    hs, _ = corr.read_history_file(hp)
+    out = []
+    for h in order:
+        H = Hist(hs[h], impl[h])
+        for v in oracles.run_oracles(H):
+            if v['prop'] == pid:
+                v.update({'run': 'search', 'hid': h, 'variant': H.variant, 'profile': 'dev',
+                          'call': H.calls[v['idx']].line if 0 <= v['idx'] < len(H.calls) else '', 'history': hs[h]})
+                out.append(v)
+                break
+        if len(out) >= 3:
+            break
+    return out
+
+
 # ----------------------------------------------------------------------------- stage C
 HYGIENE = re.compile(r'\b(Admitted|admit|Axiom|Parameter|Conjecture|Hypothesis|Variable)\b|Unset Guard|bypass_check|Admit Obligations|-type-in-type')
 
@@ -430,6 +483,15 @@ def run_property(pid, tier, seed):
                     known_lines.append(line)
             else:
                 new_viol.append(v)
+        # ---- the correspondence is broken for this property but no oracle fired: search harder
+        # around the disagreements (more histories of the variants involved, this property's oracles)
+        if my_dis and not new_viol and not build['errors']:
+            vs = sorted(set(d['variant'] for d in my_dis))
+            found = focused_search(pid, vs, seed, tier)
+            for v in found:
+                if not match_known(v, known):
+                    new_viol.append(v)
+                    res['histories']['%s/%s' % (v['run'], v['hid'])] = v.pop('history')
         proof_broken = (not pf['ok']) or bool(cone_failed) or bool(hyg)
         # ---- report
         if new_viol:
